@@ -372,6 +372,9 @@ func runC01(c *Ctx) {
 	if c.Thorough {
 		nGen, nSched = 1500, 3
 	}
+	if v := os.Getenv("C01_NGEN"); v != "" {
+		fmt.Sscan(v, &nGen)
+	}
 	parallel := 14
 
 	cases := c01ReadCorpus(c.Corpus)
@@ -401,7 +404,7 @@ func runC01(c *Ctx) {
 			s := scheds[si]
 			s.Name = fmt.Sprintf("%s#%d", cases[ci].name, si)
 			s.Src = cases[ci].src
-			s.TimeoutS = 20
+			s.TimeoutS = 12
 			cases[ci].specs = append(cases[ci].specs, len(specs))
 			sp := s
 			specs = append(specs, &sp)
@@ -428,6 +431,9 @@ func runC01(c *Ctx) {
 				final = "error"
 			}
 			r.hist("final:" + final)
+			if cs.corpus && res.Final != "complete" && si == cs.specs[0] {
+				r.note("corpus program %s: %s %s", cs.name, res.Final, c01Trunc(res.Compile+res.ErrMsg, 160))
+			}
 			if res.Final == "compile-error" {
 				compiled = false
 				continue
